@@ -1,22 +1,28 @@
 /-
 C03 — every sampler step is a Metropolis–Hastings transition for the documented target.
-Property theorems only (helper lemmas are private).  Model: `Model/Sampler.lean`.
+Property theorems only (helper lemmas are private or in `Lemmas/Blocks.lean`).
+Models: `Model/Sampler.lean` (one sampling step), `Model/Blocks.lean` (which blocks a sweep visits).
 
 What is proved (exact arithmetic, all inputs): support and values of the proposal, the number of
 draws consumed (whatever the acceptance ratios are), the decision rule of every block / individual
 as a function of its own `(ΔA, ΔR, u, tinv)`, the equivalence of `u < α` with the usual
 `u < min 1 α`, `α` = ratio of the tempered target densities, detailed balance of the resulting
-acceptance function, symmetry of the proposal, monotonicity in the inverse temperature.
+acceptance function, symmetry of the proposal, monotonicity in the inverse temperature; and, for every
+shape and sampler kind, that the blocks of a sweep partition the (unmasked) coordinates of the variable,
+what each kind's blocks are, how many normals / uniforms a sweep draws, and that shuffling changes none
+of this (section "which blocks a sweep visits").
 Not claimed: ergodicity, and the measure-theoretic statement "accepted with probability min(1,α)"
 (the uniform / normal laws of the draws are not modelled).
 -/
 import LeaspyVerif.Model.Sampler
+import LeaspyVerif.Model.Blocks
+import LeaspyVerif.Lemmas.Blocks
 import Mathlib.Analysis.SpecialFunctions.Exp
 import Mathlib.Tactic.Ring
 import Mathlib.Tactic.Linarith
 
 namespace LeaspyVerif.C03
-open LeaspyVerif.Sampler
+open LeaspyVerif.Sampler LeaspyVerif.Blocks
 
 /-! ### proposal -/
 
@@ -292,6 +298,445 @@ theorem tempering_monotone (u dA dR tinv tinv' : ℝ) (hR : 0 ≤ dR) (ht : tinv
 theorem D_at_one (dA dR : ℝ) : D 1 dA dR = dR + dA := by
   unfold D; ring
 
+/-! ### which blocks a sweep visits (`Model/Blocks.lean`)
+
+`blocksOf k s mask` is the list the sampling loop runs over, before shuffling.  All statements are
+for every shape `s` (any number of axes, any extents including 0 and 1), by induction on the
+shape (`Lemmas/Blocks.lean`), not by enumeration. -/
+
+/-- The constructor accepts exactly the 1-D and 2-D shapes without a mask; the three refusals
+    are raised in this order. -/
+theorem construct_spec (k : Kind) (s : Shape) (mask : Option (List Bool)) :
+    (construct k s mask = .ok () ↔ (s.length = 1 ∨ s.length = 2) ∧ mask = none) ∧
+    (construct k s mask = .error .index ↔ k = .fastGibbs ∧ s = []) ∧
+    (construct k s mask = .error .notImplemented ↔ (s.length = 1 ∨ s.length = 2) ∧ mask.isSome) := by
+  unfold construct
+  cases mask <;> cases k <;> (split_ifs <;> simp_all <;> try omega)
+
+/-- PARTITION, canonical form: in iterator order the blocks, put end to end, are
+    `0, 1, …, numel s - 1` — every coordinate of the variable exactly once, nothing else. -/
+theorem blocks_cover (k : Kind) (s : Shape) :
+    ((blocksOf k s).map (·.coords)).flatten = List.range (numel s) := by
+  have := perturbed_flatten k s none
+  have h1 : (blocksOf k s none).map Blk.perturbed = (blocksOf k s none).map (·.coords) := by
+    apply List.map_congr_left
+    intro b hb
+    simp only [blocksOf, List.mem_map] at hb
+    obtain ⟨idx, _, rfl⟩ := hb
+    rw [perturbed_blkOf]
+    cases k <;> simp [shouldMask]
+  rw [h1] at this
+  rw [this]
+  exact List.filter_eq_self.mpr (fun _ _ => rfl)
+
+/-- PARTITION with a mask (`unmasked none i = true`): the coordinates that can move, block after
+    block, are the unmasked coordinates, each once. -/
+theorem blocks_cover_masked (k : Kind) (s : Shape) (mask : Option (List Bool)) :
+    ((blocksOf k s mask).map Blk.perturbed).flatten = (List.range (numel s)).filter (unmasked mask) :=
+  perturbed_flatten k s mask
+
+private theorem perturbed_nodup (k : Kind) (s : Shape) (mask : Option (List Bool)) :
+    ((blocksOf k s mask).map Blk.perturbed).flatten.Nodup := by
+  rw [perturbed_flatten]
+  exact List.nodup_range.filter _
+
+/-- Every unmasked coordinate of the variable is moved by exactly one block of the sweep … -/
+theorem blocks_partition (k : Kind) (s : Shape) (mask : Option (List Bool)) (i : Nat)
+    (hi : i < numel s) (hu : unmasked mask i = true) :
+    ∃ j, ∃ hj : j < (blocksOf k s mask).length, i ∈ (blocksOf k s mask)[j].perturbed ∧
+      ∀ j' (hj' : j' < (blocksOf k s mask).length), i ∈ (blocksOf k s mask)[j'].perturbed → j' = j := by
+  have hmem : i ∈ ((blocksOf k s mask).map Blk.perturbed).flatten := by
+    rw [perturbed_flatten]
+    exact List.mem_filter.mpr ⟨List.mem_range.mpr hi, hu⟩
+  obtain ⟨l, hl, hil⟩ := List.mem_flatten.mp hmem
+  obtain ⟨j, hj, rfl⟩ := List.getElem_of_mem hl
+  have hj0 : j < (blocksOf k s mask).length := by simpa using hj
+  refine ⟨j, hj0, by simpa using hil, ?_⟩
+  intro j' hj' hi'
+  exact unique_of_nodup_flatten _ (perturbed_nodup k s mask) i j' j (by simpa using hj') hj
+    (by simpa using hi') hil
+
+/-- … and a block moves nothing else: only coordinates of the variable, never a masked one. -/
+theorem blocks_no_stray (k : Kind) (s : Shape) (mask : Option (List Bool)) (b : Blk)
+    (hb : b ∈ blocksOf k s mask) (i : Nat) (hi : i ∈ b.perturbed) :
+    i < numel s ∧ unmasked mask i = true := by
+  have hmem : i ∈ ((blocksOf k s mask).map Blk.perturbed).flatten :=
+    List.mem_flatten.mpr ⟨b.perturbed, List.mem_map.mpr ⟨b, hb, rfl⟩, hi⟩
+  rw [perturbed_flatten] at hmem
+  obtain ⟨h1, h2⟩ := List.mem_filter.mp hmem
+  exact ⟨List.mem_range.mp h1, h2⟩
+
+/-- No block is empty unless the variable is (0 entries: an extent 0). -/
+theorem blocks_nonempty (k : Kind) (s : Shape) (mask : Option (List Bool)) (h : 0 < numel s)
+    (b : Blk) (hb : b ∈ blocksOf k s mask) : b.coords ≠ [] := by
+  by_cases hg : k = .gibbs ∧ mask.isSome
+  · obtain ⟨rfl, hm⟩ := hg
+    obtain ⟨m, rfl⟩ := Option.isSome_iff_exists.mp hm
+    have hc : b.coords ∈ (blocksOf .gibbs s (some m)).map (·.coords) := List.mem_map.mpr ⟨b, hb, rfl⟩
+    rw [coords_blocks_gibbs_masked] at hc
+    obtain ⟨i, _, hi⟩ := List.mem_map.mp hc
+    rw [← hi]; simp
+  · have hm : k = .gibbs → mask = none := by
+      intro hk
+      cases mask with
+      | none => rfl
+      | some m => exact absurd ⟨hk, rfl⟩ hg
+    have hc : b.coords ∈ (blocksOf k s mask).map (·.coords) := List.mem_map.mpr ⟨b, hb, rfl⟩
+    rw [coords_blocks_generic k s mask hm] at hc
+    obtain ⟨p, _, hp⟩ := List.mem_map.mp hc
+    have hpos : 0 < numel (s.drop (lead k s)) := by
+      have := numel_take_drop (lead k s) s
+      rcases Nat.eq_zero_or_pos (numel (s.drop (lead k s))) with h0 | h0
+      · rw [h0, Nat.mul_zero] at this; omega
+      · exact h0
+    intro hnil
+    rw [hnil] at hp
+    have := congrArg List.length hp
+    simp at this
+    omega
+
+/-- Shape of the normal draw of every block: the trailing axes `shape[len(idx):]`, and the block
+    consumes all of it — also when some of its coordinates are masked. -/
+theorem blocks_draw_shape (k : Kind) (s : Shape) (mask : Option (List Bool)) (b : Blk)
+    (hb : b ∈ blocksOf k s mask) : b.normals = numel b.zshape := by
+  simp only [blocksOf, List.mem_map] at hb
+  obtain ⟨idx, _, rfl⟩ := hb
+  simp [Blk.normals, blkOf, ndindex_length_eq]
+
+/-- Gibbs: one block per coordinate, a singleton, with its own entry of `std` (same shape as the
+    variable); scalar draws. -/
+theorem gibbs_blocks_singletons (s : Shape) :
+    (blocksOf .gibbs s).map (fun b => (b.coords, b.stdIdx)) = (List.range (numel s)).map fun i => ([i], i) := by
+  have h1 := coords_blocks_generic .gibbs s none (fun _ => rfl)
+  have h2 := stdIdx_blocks_generic .gibbs s none (fun _ => rfl)
+  rw [stdShape_gibbs] at h1 h2
+  simp only [lead, List.drop_length, numel, Nat.mul_one, List.range_one, List.map_cons, List.map_nil,
+    Nat.add_zero] at h1
+  apply List.ext_getElem?
+  intro j
+  have e1 := congrArg (·[j]?) h1
+  have e2 := congrArg (·[j]?) h2
+  simp only [List.getElem?_map] at e1 e2 ⊢
+  cases hb : (blocksOf .gibbs s)[j]? with
+  | none => simp [hb] at e2 ⊢; omega
+  | some b =>
+    simp only [hb, Option.map_some] at e1 e2 ⊢
+    cases hr : (List.range (numel s))[j]? with
+    | none => simp [hr] at e2
+    | some i =>
+      simp only [hr, Option.map_some, Option.some.injEq] at e1 e2 ⊢
+      rw [e1, e2]
+
+/-- Metropolis-Hastings: a single block, the whole variable, one scalar `std`. -/
+theorem mh_one_block (s : Shape) :
+    (blocksOf .mh s).map (fun b => (b.coords, b.stdIdx, b.zshape)) = [(List.range (numel s), 0, s)] := by
+  simp [blocksOf, iterIndices, stdShape, lead, ndindex, blkOf, flat, ndindex_flat]
+
+/-- FastGibbs: the blocks are the rows (first axis); row `i` is `[i·c, …, i·c + c - 1]` with `c` the
+    number of entries of one row, it uses `std[i]` (`std` has one entry per row). -/
+theorem fastGibbs_blocks_rows (r : Nat) (rest : Shape) :
+    (blocksOf .fastGibbs (r :: rest)).map (fun b => (b.coords, b.stdIdx))
+      = (List.range r).map fun i => ((List.range (numel rest)).map (i * numel rest + ·), i) := by
+  have h1 := coords_blocks_generic .fastGibbs (r :: rest) none (by simp)
+  have h2 := stdIdx_blocks_generic .fastGibbs (r :: rest) none (by simp)
+  simp only [stdShape, lead, List.take_succ_cons, List.take_zero, List.drop_succ_cons, List.drop_zero,
+    numel, Nat.mul_one] at h1 h2
+  apply List.ext_getElem?
+  intro j
+  have e1 := congrArg (·[j]?) h1
+  have e2 := congrArg (·[j]?) h2
+  simp only [List.getElem?_map] at e1 e2 ⊢
+  cases hb : (blocksOf .fastGibbs (r :: rest))[j]? with
+  | none => simp [hb] at e2 ⊢; omega
+  | some b =>
+    simp only [hb, Option.map_some] at e1 e2 ⊢
+    cases hr : (List.range r)[j]? with
+    | none => simp [hr] at e2
+    | some i =>
+      simp only [hr, Option.map_some, Option.some.injEq] at e1 e2 ⊢
+      rw [e1, e2]
+
+private theorem sum_const_map (P m : Nat) (f : Nat → List Nat) (hf : ∀ p, (f p).length = m) :
+    (((List.range P).map f).map List.length).sum = P * m := by
+  induction P with
+  | zero => simp
+  | succ P ih =>
+    rw [List.range_succ, List.map_append, List.map_append, List.sum_append, ih]
+    simp [hf, Nat.succ_mul]
+
+private theorem sweepDraws_generic (k : Kind) (s : Shape) (mask : Option (List Bool))
+    (hm : k = .gibbs → mask = none) :
+    sweepDraws (blocksOf k s mask) = (numel s, numel (stdShape k s)) := by
+  have h1 := coords_blocks_generic k s mask hm
+  have h2 := congrArg List.length (stdIdx_blocks_generic k s mask hm)
+  simp only [List.length_map, List.length_range] at h2
+  have h3 : ((blocksOf k s mask).map Blk.normals).sum = numel s := by
+    have : (blocksOf k s mask).map Blk.normals = ((blocksOf k s mask).map (·.coords)).map List.length := by
+      rw [List.map_map]; rfl
+    rw [this, h1, sum_const_map _ (numel (s.drop (lead k s))) _ (by intro p; simp)]
+    exact numel_take_drop (lead k s) s
+  simp [sweepDraws, h2, h3]
+
+/-- Draws of one Gibbs sweep: `numel` normals, `numel` uniforms (= number of blocks). -/
+theorem sweep_counts_gibbs (s : Shape) : sweepDraws (blocksOf .gibbs s) = (numel s, numel s) := by
+  rw [sweepDraws_generic .gibbs s none (fun _ => rfl), stdShape_gibbs]
+
+/-- Draws of one FastGibbs sweep: `numel` normals, one uniform per row. -/
+theorem sweep_counts_fastGibbs (r : Nat) (rest : Shape) :
+    sweepDraws (blocksOf .fastGibbs (r :: rest)) = (r * numel rest, r) := by
+  rw [sweepDraws_generic .fastGibbs (r :: rest) none (by simp)]
+  simp [stdShape, lead, numel]
+
+/-- Draws of one Metropolis-Hastings sweep: `numel` normals, a single uniform. -/
+theorem sweep_counts_mh (s : Shape) : sweepDraws (blocksOf .mh s) = (numel s, 1) := by
+  rw [sweepDraws_generic .mh s none (by simp)]
+  simp [stdShape, lead, numel]
+
+/-- With a mask: FastGibbs and Metropolis-Hastings draw exactly as without (the normals of the
+    masked coordinates are drawn and multiplied by 0; a fully masked row still takes a decision);
+    the full Gibbs sampler skips the masked coordinates: one normal and one uniform per unmasked one. -/
+theorem sweep_counts_masked (k : Kind) (s : Shape) (m : List Bool) :
+    sweepDraws (blocksOf k s (some m)) =
+      if k = .gibbs then (((List.range (numel s)).filter (maskAt m)).length,
+                          ((List.range (numel s)).filter (maskAt m)).length)
+      else sweepDraws (blocksOf k s) := by
+  by_cases hk : k = .gibbs
+  · subst hk
+    have h1 := coords_blocks_gibbs_masked s m
+    have hl := congrArg List.length h1
+    simp only [List.length_map] at hl
+    have hn : (blocksOf .gibbs s (some m)).map Blk.normals
+        = ((blocksOf .gibbs s (some m)).map (·.coords)).map List.length := by
+      rw [List.map_map]; rfl
+    simp only [sweepDraws, if_true, hn, h1, hl, List.map_map]
+    congr 1
+    generalize (List.range (numel s)).filter (maskAt m) = l
+    induction l with
+    | nil => rfl
+    | cons a l ih => simp only [List.map_cons, List.sum_cons, ih, Function.comp, List.length_cons, List.length_nil]; omega
+  · simp only [hk, if_false]
+    rw [sweepDraws_generic k s (some m) (fun h => absurd h hk), sweepDraws_generic k s none (fun h => absurd h hk)]
+
+/-- Shuffling: visiting the blocks in the order `σ` (any permutation of the positions, the result
+    of `random.shuffle`) yields the same blocks, each once — the multiset of blocks is unchanged. -/
+theorem shuffle_preserves_blocks (k : Kind) (s : Shape) (mask : Option (List Bool)) (σ : List Nat)
+    (h : σ.Perm (List.range (blocksOf k s mask).length)) :
+    (reorder σ (blocksOf k s mask)).Perm (blocksOf k s mask) :=
+  reorder_perm σ _ h
+
+/-- … hence the same number of normals and uniforms whatever the order. -/
+theorem sweepDraws_perm (bs bs' : List Blk) (h : bs'.Perm bs) : sweepDraws bs' = sweepDraws bs := by
+  simp [sweepDraws, h.length_eq, (h.map Blk.normals).sum_nat]
+
+/-- A sweep in ANY order moves every unmasked coordinate of the variable exactly once and nothing
+    else (multiplicity of `i` among the coordinates moved during the sweep). -/
+theorem sweep_any_order_once (k : Kind) (s : Shape) (mask : Option (List Bool)) (bs' : List Blk)
+    (h : bs'.Perm (blocksOf k s mask)) (i : Nat) :
+    (bs'.flatMap Blk.perturbed).count i = if i < numel s ∧ unmasked mask i = true then 1 else 0 := by
+  have hp : (bs'.flatMap Blk.perturbed).Perm ((List.range (numel s)).filter (unmasked mask)) := by
+    rw [← perturbed_flatten k s mask, List.flatMap_def]
+    exact (h.map _).flatten
+  rw [hp.count_eq]
+  have hnd : ((List.range (numel s)).filter (unmasked mask)).Nodup := List.nodup_range.filter _
+  by_cases hc : i < numel s ∧ unmasked mask i = true
+  · rw [if_pos hc]
+    exact List.count_eq_one_of_mem hnd (List.mem_filter.mpr ⟨List.mem_range.mpr hc.1, hc.2⟩)
+  · rw [if_neg hc]
+    apply List.count_eq_zero_of_not_mem
+    intro hmem
+    obtain ⟨h1, h2⟩ := List.mem_filter.mp hmem
+    exact hc ⟨List.mem_range.mp h1, h2⟩
+
+/-- in particular for the order produced by `_get_shuffled_iterator_indices` -/
+theorem shuffled_sweep_once (k : Kind) (s : Shape) (mask : Option (List Bool)) (σ : List Nat)
+    (h : σ.Perm (List.range (blocksOf k s mask).length)) (i : Nat) :
+    ((reorder σ (blocksOf k s mask)).flatMap Blk.perturbed).count i
+      = if i < numel s ∧ unmasked mask i = true then 1 else 0 :=
+  sweep_any_order_once k s mask _ (reorder_perm σ _ h) i
+
+/-! #### the change proposed for a block -/
+
+/-- Without a mask factor the change of a block is the `proposal` of `Model/Sampler.lean` on the
+    block's coordinates (the object of `proposal_support`, `proposal_on_block`, `proposal_neg`). -/
+theorem blockChange_unmasked {α} [OfNat α 0] [OfNat α 1] [Mul α] (n : Nat) (b : Blk) (std : α) (z : List α)
+    (h : b.keep = none) : blockChange n b std z = proposal n b.coords std z := by
+  simp only [blockChange, proposal, h]
+  rfl
+
+private theorem lookup_zip_keep (coords : List Nat) (zk : List (ℝ × Bool)) (i : Nat) (zi : ℝ) (kk : Bool)
+    (hl : (coords.zip zk).lookup i = some (zi, kk))
+    (hn : i ∉ (coords.zip (zk.map (·.2))).filterMap (fun ck => if ck.2 then some ck.1 else none)) :
+    kk = false := by
+  induction coords generalizing zk with
+  | nil => simp at hl
+  | cons c cs ih =>
+    cases zk with
+    | nil => simp at hl
+    | cons y ys =>
+      by_cases hic : (i == c) = true
+      · simp only [List.zip_cons_cons, List.lookup, hic, Option.some.injEq] at hl
+        have hic' : i = c := by simpa using hic
+        subst hl
+        cases kk with
+        | false => rfl
+        | true =>
+          exfalso
+          apply hn
+          simp [hic']
+      · have hic' : (i == c) = false := by simpa using hic
+        simp only [List.zip_cons_cons, List.lookup, hic'] at hl
+        apply ih ys hl
+        intro hmem
+        apply hn
+        simp only [List.map_cons, List.zip_cons_cons, List.filterMap_cons]
+        split
+        · exact hmem
+        · exact List.mem_cons_of_mem _ hmem
+
+/-- Support of the change of a block, masked or not: zero at every coordinate the block does not
+    move — the coordinates of the other blocks and the masked coordinates of its own (exact over the
+    reals; in floating point the product with 0 is ±0 for a finite draw). -/
+theorem blockChange_support (n : Nat) (b : Blk) (std : ℝ) (z : List ℝ) (i : Nat) (hi : i < n)
+    (hb : i ∉ b.perturbed) : (blockChange n b std z)[i]? = some 0 := by
+  cases hk : b.keep with
+  | none =>
+    rw [blockChange_unmasked n b std z hk]
+    exact proposal_support n b.coords std z i hi (by simpa [Blk.perturbed, hk] using hb)
+  | some ks =>
+    simp only [blockChange, hk, List.getElem?_map, List.getElem?_range hi, Option.map_some]
+    cases hl : (b.coords.zip (z.zip ks)).lookup i with
+    | none => rfl
+    | some v =>
+      obtain ⟨zi, kk⟩ := v
+      have : kk = false := by
+        apply lookup_zip_keep b.coords (z.zip ks) i zi kk hl
+        simp only [Blk.perturbed, hk] at hb
+        intro hmem
+        apply hb
+        -- the mask entries paired with the coordinates are the same with or without the draws
+        have hz : ∀ (cs : List Nat) (zs : List ℝ) (ks : List Bool),
+            i ∈ (cs.zip ((zs.zip ks).map (·.2))).filterMap (fun ck => if ck.2 then some ck.1 else none) →
+            i ∈ (cs.zip ks).filterMap (fun ck => if ck.2 then some ck.1 else none) := by
+          intro cs
+          induction cs with
+          | nil => intro zs ks h; simp at h
+          | cons c cs ih =>
+            intro zs ks h
+            cases zs with
+            | nil => simp at h
+            | cons y ys =>
+              cases ks with
+              | nil => simp at h
+              | cons q qs =>
+                simp only [List.zip_cons_cons, List.map_cons, List.filterMap_cons] at h ⊢
+                cases q with
+                | false => simpa using ih ys qs (by simpa using h)
+                | true =>
+                  simp only [if_true, List.mem_cons] at h ⊢
+                  rcases h with h | h
+                  · exact Or.inl h
+                  · exact Or.inr (ih ys qs h)
+        exact hz _ _ _ hmem
+      subst this
+      simp
+
+/-! #### link with the sweep of `Model/Sampler.lean` -/
+
+/-- `proposal_support` instantiated with the blocks of a sampler: the proposal made for block `j`
+    is exactly zero on every coordinate of every other block `j'` of the same sweep. -/
+theorem proposal_support_blocks {α} [OfNat α 0] [Mul α] (k : Kind) (s : Shape) (std : α) (z : List α)
+    (j j' : Nat) (hj : j < (blocksOf k s).length) (hj' : j' < (blocksOf k s).length) (hne : j ≠ j')
+    (i : Nat) (hi : i ∈ (blocksOf k s)[j'].coords) :
+    (proposal (numel s) (blocksOf k s)[j].coords std z)[i]? = some 0 := by
+  have hnd : ((blocksOf k s).map (·.coords)).flatten.Nodup := by
+    rw [blocks_cover]; exact List.nodup_range
+  have hlt : i < numel s := by
+    have : i ∈ ((blocksOf k s).map (·.coords)).flatten :=
+      List.mem_flatten.mpr ⟨_, List.mem_map.mpr ⟨_, List.getElem_mem hj', rfl⟩, hi⟩
+    rw [blocks_cover] at this
+    exact List.mem_range.mp this
+  apply proposal_support _ _ _ _ _ hlt
+  intro hmem
+  exact hne (unique_of_nodup_flatten _ hnd i j j' (by simpa using hj) (by simpa using hj')
+    (by simpa using hmem) (by simpa using hi))
+
+/-- `draws_consumed` instantiated with the blocks of a sampler: a completed sweep of a variable of
+    shape `s`, in any order of the blocks, has consumed exactly `numel s` normals and one uniform
+    per block — `numel s` (Gibbs), the number of rows (FastGibbs), 1 (Metropolis-Hastings) by
+    `sweep_counts_*` — and has taken that many decisions, whatever `std`, the nll readers, the
+    inverse temperature and the draws are. -/
+theorem draws_consumed_sweep {α β} [OfNat α 0] [Mul α] [Add α] [Add β] [Mul β] [Neg β] [LT β] [DecidableLT β]
+    (exp : β → β) (tinv : β) (k : Kind) (s : Shape) (bs' : List Blk) (hp : bs'.Perm (blocksOf k s))
+    (std : Nat → α) (dE : Blk → List α → List α → β × β) (cur zs : List α) (us : List β) (r : PopOut α β)
+    (h : popSample exp tinv (toSweep bs' std dE) cur zs us = some r) :
+    r.zs = zs.drop (numel s) ∧ r.us = us.drop (numel (stdShape k s)) ∧
+      r.acc.length = numel (stdShape k s) ∧ numel s ≤ zs.length ∧ numel (stdShape k s) ≤ us.length := by
+  obtain ⟨h1, h2, h3, _, h5, h6⟩ := draws_consumed exp tinv _ cur zs us r h
+  have hd := sweepDraws_perm _ _ hp
+  rw [sweepDraws_generic k s none (by simp)] at hd
+  simp only [sweepDraws, Prod.mk.injEq] at hd
+  have e1 : ((toSweep bs' std dE).map (·.idx.length)).sum = numel s := by
+    rw [← hd.1]; simp only [toSweep, List.map_map, Function.comp_def]; rfl
+  have e2 : (toSweep bs' std dE).length = numel (stdShape k s) := by
+    rw [← hd.2]; simp [toSweep]
+  rw [e1] at h1 h5
+  rw [e2] at h2 h3 h6
+  exact ⟨h1, h2, h3, h5, h6⟩
+
+/-- The three 2-D tables of `Model/Sampler.lean` (`gibbsBlocks`, `fastGibbsBlocks`, `mhBlocks`, used by
+    the sweep examples) are the blocks of this model on the shape `(rows, cols)`. -/
+theorem sampler_tables_agree (r c : Nat) :
+    gibbsBlocks r c = (blocksOf .gibbs [r, c]).map (·.coords) ∧
+    fastGibbsBlocks r c = (blocksOf .fastGibbs [r, c]).map (·.coords) ∧
+    mhBlocks r c = (blocksOf .mh [r, c]).map (·.coords) := by
+  have hg := congrArg (List.map Prod.fst) (gibbs_blocks_singletons [r, c])
+  have hf := congrArg (List.map Prod.fst) (fastGibbs_blocks_rows r [c])
+  have hm := congrArg (List.map Prod.fst) (mh_one_block [r, c])
+  simp only [List.map_map, Function.comp_def, numel, Nat.mul_one, List.map_cons, List.map_nil] at hg hf hm
+  refine ⟨?_, ?_, ?_⟩
+  · rw [hg]; rfl
+  · rw [hf]; rfl
+  · rw [hm]; rfl
+
+/-! #### individual sampler -/
+
+/-- The individual sampler perturbs a variable of shape `(n, *shape)`: individual `j` owns the flat
+    coordinates `j·d, …, j·d + d - 1` (`d = numel shape`) and the entry `std[j]`, broadcast over its
+    row; the rows partition the `n·d` coordinates of the single draw `randn((n, *shape))`. -/
+theorem ind_blocks_rows (n : Nat) (s : Shape) :
+    (indBlocks n s).map (fun b => (b.coords, b.stdIdx))
+        = (List.range n).map (fun j => ((List.range (numel s)).map (j * numel s + ·), j)) ∧
+      ((indBlocks n s).map (·.coords)).flatten = List.range (n * numel s) :=
+  ⟨fastGibbs_blocks_rows n s, blocks_cover .fastGibbs (n :: s)⟩
+
+private theorem filterMap_range_shift {α} (zs : List α) (a d : Nat) :
+    (List.range d).filterMap (fun c => zs[a + c]?) = (zs.drop a).take d := by
+  induction d with
+  | zero => simp
+  | succ d ih =>
+    rw [List.range_succ, List.filterMap_append, ih, List.take_add_one]
+    simp only [List.getElem?_drop]
+    cases h : zs[a + d]? with
+    | none => simp [h]
+    | some v => simp [h]
+
+/-- The normals handed to individual `j` by `indSample` (`chunks`) are the entries of the single
+    draw at its own coordinates. -/
+theorem ind_draws_by_row {α} (n : Nat) (s : Shape) (zs : List α) (j : Nat) (hj : j < n) :
+    ∃ b, (indBlocks n s)[j]? = some b ∧
+      (chunks (numel s) n zs)[j]? = some (b.coords.filterMap (zs[·]?)) := by
+  have h := congrArg (·[j]?) (ind_blocks_rows n s).1
+  simp only [List.getElem?_map, List.getElem?_range hj, Option.map_some] at h
+  cases hb : (indBlocks n s)[j]? with
+  | none => simp [hb] at h
+  | some b =>
+    simp only [hb, Option.map_some, Option.some.injEq, Prod.mk.injEq] at h
+    refine ⟨b, rfl, ?_⟩
+    rw [chunks_get _ _ _ _ hj, h.1]
+    congr 1
+    simp only [List.filterMap_map, Function.comp_def]
+    rw [filterMap_range_shift]
+
 /-! ### non-vacuity -/
 
 /-- a FastGibbs sweep over a 2×2 variable with enough draws runs, consumes 4 normals and 2 uniforms -/
@@ -307,5 +752,51 @@ example : (indSample (α := ℚ) (β := ℚ) (fun _ => 1) 1 2
         (fun r => (r.rows, r.zs, r.us))
       = some ([([1, 2], true), ([10, 10], false)], [9], [8]) := by
   decide +kernel
+
+/-- the three layouts of a 2×3 variable, and the degenerate extents r = 1, c = 1, 0 -/
+example : (blocksOf .gibbs [2, 3]).map (·.coords) = [[0], [1], [2], [3], [4], [5]] ∧
+    (blocksOf .fastGibbs [2, 3]).map (fun b => (b.coords, b.stdIdx, b.zshape)) = [([0, 1, 2], 0, [3]), ([3, 4, 5], 1, [3])] ∧
+    (blocksOf .mh [2, 3]).map (fun b => (b.coords, b.stdIdx, b.zshape)) = [([0, 1, 2, 3, 4, 5], 0, [2, 3])] ∧
+    (blocksOf .fastGibbs [1, 3]).map (·.coords) = [[0, 1, 2]] ∧
+    (blocksOf .fastGibbs [3, 1]).map (·.coords) = [[0], [1], [2]] ∧
+    (blocksOf .fastGibbs [3]).map (fun b => (b.coords, b.zshape)) = [([0], []), ([1], []), ([2], [])] ∧
+    (blocksOf .fastGibbs [2, 0]).map (·.coords) = [[], []] ∧ (blocksOf .mh [0]).map (·.coords) = [[]] ∧
+    (blocksOf .gibbs [0, 2]).map (·.coords) = [] := by
+  decide
+
+/-- a mask `[[1,0,1],[0,0,0]]`: full Gibbs visits the two unmasked coordinates only; FastGibbs keeps
+    both rows (the second moves nothing but still draws 3 normals and takes a decision); the masked
+    change of a row is zero on its masked coordinates -/
+example :
+    let m := some [true, false, true, false, false, false]
+    (blocksOf .gibbs [2, 3] m).map (fun b => (b.idx, b.coords, b.stdIdx, b.keep)) = [([0, 0], [0], 0, none), ([0, 2], [2], 2, none)] ∧
+    (blocksOf .fastGibbs [2, 3] m).map Blk.perturbed = [[0, 2], []] ∧
+    sweepDraws (blocksOf .fastGibbs [2, 3] m) = (6, 2) ∧ sweepDraws (blocksOf .gibbs [2, 3] m) = (2, 2) ∧
+    (blocksOf .mh [2, 3] m).map (fun b => blockChange (α := ℚ) 6 b 2 [1, 2, 3, 4, 5, 6]) = [[2, 0, 6, 0, 0, 0]] := by
+  decide +kernel
+
+/-- the constructor: 1-D / 2-D without mask accepted, everything else refused as coded -/
+example : construct .fastGibbs [2, 3] none = .ok () ∧ construct .fastGibbs [] none = .error .index ∧
+    construct .gibbs [] none = .error .model ∧ construct .mh [2, 2, 2] none = .error .model ∧
+    construct .gibbs [2, 3] (some [true, true, true, true, true, true]) = .error .notImplemented := by
+  decide
+
+/-- a shuffled order: `σ = [1, 0]` visits the second row first; the hypotheses of
+    `shuffle_preserves_blocks` / `draws_consumed_sweep` are satisfiable and the sweep runs -/
+example : [1, 0].Perm (List.range (blocksOf .fastGibbs [2, 2]).length) ∧
+    (reorder [1, 0] (blocksOf .fastGibbs [2, 2])).map (·.coords) = [[2, 3], [0, 1]] ∧
+    (popSample (α := ℚ) (β := ℚ) (fun _ => 1) 1
+      (toSweep (reorder [1, 0] (blocksOf .fastGibbs [2, 2])) (fun j => if j = 0 then 1 else 10) (fun _ _ _ => (0, 0)))
+      [0, 0, 0, 0] [1, 2, 3, 4, 5] [1/2, 2, 7]).map (fun r => (r.value, r.acc, r.zs, r.us))
+      = some ([0, 0, 10, 20], [true, false], [5], [7]) := by
+  refine ⟨?_, ?_, ?_⟩
+  · exact List.Perm.swap 0 1 []
+  · decide
+  · decide +kernel
+
+/-- the individual layout: 3 individuals × shape (2,), one `std` entry per individual -/
+example : (indBlocks 3 [2]).map (fun b => (b.coords, b.stdIdx)) = [([0, 1], 0), ([2, 3], 1), ([4, 5], 2)] ∧
+    (indBlocks 2 []).map (fun b => (b.coords, b.stdIdx)) = [([0], 0), ([1], 1)] := by
+  decide
 
 end LeaspyVerif.C03
